@@ -7,3 +7,5 @@ import RagcModel.Model.Queue
 import RagcModel.Model.Varint
 import RagcModel.Model.Container
 import RagcModel.Model.Range
+import RagcModel.Model.FileIO
+import RagcModel.Model.Cli
